@@ -40,6 +40,24 @@ type Meta struct {
 	// OutOnly: the resource also carries output-only fields (generation, metageneration), as a client
 	// does that sends back a resource it had fetched; the service must ignore them
 	OutOnly bool `json:",omitempty"`
+	// CE: contentEncoding of the resource ("gzip": the content is then a gzip stream made by GzOf)
+	CE string `json:",omitempty"`
+}
+
+// gzip-encoded objects.  The Model knows stored bytes only; a download that the service inflates on
+// behalf of a client that does not accept gzip is mapped back to the stored bytes it came from
+// (ungz: plaintext -> the gzip stream GzOf made of it), everything else is compared as it is.
+var ungz = map[string][]byte{}
+
+// GzOf compresses a plaintext that no other payload equals and remembers the pair.
+func GzOf(tag string) []byte {
+	plain := []byte("gz-plain:" + tag)
+	var b bytes.Buffer
+	w := gzip.NewWriter(&b)
+	w.Write(plain)
+	w.Close()
+	ungz[string(plain)] = b.Bytes()
+	return b.Bytes()
 }
 
 // Conds are symbolic: u(nset) cur other zero bad, for gm gnm mm mnm.
@@ -501,6 +519,9 @@ func metaJSON(name string, m Meta, md5 string) map[string]any {
 	} else if m.EmptyUM {
 		j["metadata"] = map[string]string{}
 	}
+	if m.CE != "" {
+		j["contentEncoding"] = m.CE
+	}
 	if m.OutOnly {
 		j["generation"] = "9223372036854775807"
 		j["metageneration"] = "9"
@@ -563,7 +584,40 @@ func errorBodyOK(rec *httptest.ResponseRecorder) bool {
 	return json.Unmarshal(rec.Body.Bytes(), &v) == nil && v.Error.Code == rec.Code
 }
 
+// digest: everything the listings of the known buckets say (full resources: every metadata field,
+// MD5, size, both counters of every object).
+func (e *Env) digest() string {
+	var sb strings.Builder
+	for _, b := range Buckets {
+		rec := e.do("GET", "/storage/v1/b/"+b+"/o", "maxResults=1000", nil, nil)
+		sb.WriteString(fmt.Sprint(rec.Code))
+		sb.Write(rec.Body.Bytes())
+	}
+	return sb.String()
+}
+
+// Exec runs one request.  Requests that only read (metadata, media, listings) are bracketed by two
+// digests of the store: a read that changes what is stored is reported in its own answer. (Listings are
+// not bracketed: the exhaustive listing sweeps would triple in cost; the digest is itself a listing.)
 func (e *Env) Exec(cop core.Op) (resp string) {
+	o := cop.(*Op)
+	if e.RawGens {
+		// (the interleaving harness: every request of a goroutine is a scheduled step, no extra ones)
+		return e.exec(cop)
+	}
+	switch o.Kind {
+	case "getmeta", "getmedia", "getbucket":
+		before := e.digest()
+		resp = e.exec(cop)
+		if after := e.digest(); after != before {
+			resp += " THIS-READ-CHANGED-WHAT-IS-STORED"
+		}
+		return resp
+	}
+	return e.exec(cop)
+}
+
+func (e *Env) exec(cop core.Op) (resp string) {
 	o := cop.(*Op)
 	defer func() {
 		if r := recover(); r != nil {
@@ -685,7 +739,11 @@ func (e *Env) Exec(cop core.Op) (resp string) {
 			return statusLine(rec.Code)
 		}
 		g, _ := strconv.ParseInt(rec.Header().Get("X-Goog-Generation"), 10, 64)
-		return fmt.Sprintf("media name=%s ct=%s gen=#%s mg=%s data=%s", hs(o.N), hs(rec.Header().Get("Content-Type")), e.rankStr(g), rec.Header().Get("X-Goog-Metageneration"), hx(rec.Body.Bytes()))
+		body := rec.Body.Bytes()
+		if stored, ok := ungz[string(body)]; ok && rec.Header().Get("Content-Encoding") == "" {
+			body = stored // inflated on our behalf (we sent no Accept-Encoding): the stored stream is what the Model holds
+		}
+		return fmt.Sprintf("media name=%s ct=%s gen=#%s mg=%s data=%s", hs(o.N), hs(rec.Header().Get("Content-Type")), e.rankStr(g), rec.Header().Get("X-Goog-Metageneration"), hx(body))
 	case "patch":
 		q := e.condQuery(o.B, o.N, o.Conds)
 		q.Set("alt", "json")
